@@ -145,7 +145,8 @@ def body(name, ci, mech, d, s, n, fj=0):
     cubes={"ci": range(len(c01.CASE_NAMES)), "mech": range(4)},
     bounds={"quick": {"L": 1, "N": 9, "FJ": 1}, "thorough": {"L": 2, "N": 99, "FJ": 12}},
     timeout={"quick": 200, "thorough": 900},
-    witness=[dict(ci=c01.CASE_NAMES.index("where"), mech=1, d=2, s="x'", n=1, fj=0),
+    witness=[dict(ci=c01.CASE_NAMES.index("where"), mech=1, d=1, s="x'", n=1, fj=0),
+             dict(ci=c01.CASE_NAMES.index("where"), mech=0, d=2, s="a", n=1, fj=1),
              dict(ci=c01.CASE_NAMES.index("so_union"), mech=2, d=0, s="a", n=1, fj=1),
              dict(ci=c01.CASE_NAMES.index("table_as_"), mech=3, d=0, s="a", n=1, fj=0)],
     doc="every C01 case result (113 object graphs x 6 dialect classes) x copy.copy / copy.deepcopy / pickle protocol 2 / "
